@@ -165,6 +165,18 @@ fn note_free(base: usize) -> Freed {
     .unwrap_or(Freed::Unknown)
 }
 
+/// The quarantined (freed, watched) block containing `addr`, if any.
+pub fn freed_block_of(addr: usize) -> Option<Block> {
+    with_table(|t| {
+        t.quarantine
+            .range(..=addr)
+            .next_back()
+            .map(|(_, b)| *b)
+            .filter(|b| addr < b.base + b.size.max(1))
+    })
+    .flatten()
+}
+
 /// Watched blocks that were freed a second time since the last call.
 pub fn drain_double_frees() -> Vec<Block> {
     with_table(|t| std::mem::take(&mut t.double_frees)).unwrap_or_default()
